@@ -308,9 +308,11 @@ func DiffClassification(p *core.Program, r *core.Report, rule string) {
 		r.Check(reads["removedConns"] && reads["addedConns"] && reads["changedConns"], rule, m.Key()+": empty iff no added, removed or changed entry", p.Pos(m.Decl.Pos()), "", "IsEmpty does not consult all three difference lists")
 	}
 	// connsPair accessors
-	accTable := []struct{ name, constant, what string }{
-		{"Src", "AddedType", "the second side's source for an added entry"}, {"Dst", "AddedType", "the second side's destination for an added entry"},
-		{"Ref1Connectivity", "AddedType", "an empty first connection for an added entry"}, {"Ref2Connectivity", "RemovedType", "an empty second connection for a removed entry"},
+	// decided on the path condition of every return: under diffType == <constant> the result is built from `under` (a side
+	// of the pair, or neither: the empty connection), otherwise from `other` - whatever the shape (guard clause, if/else, switch)
+	accTable := []struct{ name, constant, under, other, what string }{
+		{"Src", "AddedType", "secondConn", "firstConn", "the second side's source for an added entry"}, {"Dst", "AddedType", "secondConn", "firstConn", "the second side's destination for an added entry"},
+		{"Ref1Connectivity", "AddedType", "", "firstConn", "an empty first connection for an added entry"}, {"Ref2Connectivity", "RemovedType", "", "secondConn", "an empty second connection for a removed entry"},
 	}
 	for _, a := range accTable {
 		m := p.Func(core.PkgDiff, "connsPair", a.name)
@@ -319,18 +321,54 @@ func DiffClassification(p *core.Program, r *core.Report, rule string) {
 			continue
 		}
 		minfo := m.Pkg.TypesInfo
-		okAcc := false
-		ast.Inspect(m.Decl.Body, func(n ast.Node) bool {
-			ifs, ok := n.(*ast.IfStmt)
-			if !ok {
+		constVal := ""
+		if pk := p.ByPath[core.PkgDiff]; pk != nil {
+			if c, ok := pk.Types.Scope().Lookup(a.constant).(*types.Const); ok {
+				constVal = c.Val().ExactString()
+			}
+		}
+		okAcc := constVal != ""
+		nRet := 0
+		w := facts.NewWalker(minfo)
+		w.OnStmt = func(st ast.Stmt, f facts.Formula) {
+			ret, isRet := st.(*ast.ReturnStmt)
+			if !isRet || w.FuncLitDepth > 0 || len(ret.Results) != 1 || !facts.Satisfiable(f) {
+				return
+			}
+			nRet++
+			var is, isNot bool
+			for _, at := range facts.Atoms(f) {
+				sa := facts.StripVersions(at)
+				if strings.HasPrefix(sa, "eq:") && strings.HasSuffix(sa, ".diffType=="+constVal) {
+					is = is || facts.Entails(f, facts.Atom(at))
+					isNot = isNot || facts.Entails(f, facts.MkNot(facts.Atom(at)))
+				}
+			}
+			sides := map[string]bool{}
+			ast.Inspect(ResolveLocal(minfo, m.Decl.Body, ret.Results[0]), func(n ast.Node) bool {
+				if se, ok := n.(*ast.SelectorExpr); ok {
+					if fl := core.FieldOf(minfo, se); fl != nil && (core.RefName(fl) == "firstConn" || core.RefName(fl) == "secondConn") {
+						sides[core.RefName(fl)] = true
+					}
+				}
 				return true
+			})
+			want := a.other
+			switch {
+			case is:
+				want = a.under
+			case !isNot:
+				okAcc = false // the return does not know which kind of entry it answers for
+				return
 			}
-			be, ok := ast.Unparen(ifs.Cond).(*ast.BinaryExpr)
-			if ok && be.Op == token.EQL && (constName(minfo, be.Y) == a.constant || constName(minfo, be.X) == a.constant) {
-				okAcc = true
+			if (want == "" && len(sides) != 0) || (want != "" && !(len(sides) == 1 && sides[want])) {
+				okAcc = false
 			}
-			return true
-		})
+		}
+		w.WalkBody(m.Decl.Body, nil)
+		if nRet < 2 {
+			okAcc = false
+		}
 		// the other branch reads the mirror side
 		r.Check(okAcc, rule, m.Key()+": yields "+a.what, p.Pos(m.Decl.Pos()), "special-cases diffType == "+a.constant, "the accessor no longer special-cases "+a.constant)
 	}
